@@ -134,8 +134,10 @@ impl StateEntry {
                 .unwrap()
                 .as_millis() as u64;
 
-            let ttl_ms = ttl.as_millis() as u64;
-            now > self.created_at + ttl_ms
+            // saturate: a TTL such as Duration::MAX means "never expires"; the truncating cast and
+            // the plain addition wrapped around (or panicked in builds with overflow checks)
+            let ttl_ms = u64::try_from(ttl.as_millis()).unwrap_or(u64::MAX);
+            now > self.created_at.saturating_add(ttl_ms)
         } else {
             false
         }
